@@ -304,6 +304,12 @@ func c17Command(rc *RunCtx, t *simrt.Tape) {
 	format := fc.Shape.Format
 	codec := 1 + t.Choose(5)
 	viaStdin := t.Choose(3) == 2
+	// one case in twelve: a gzip file whose magic number is damaged (or that is cut inside it),
+	// lying in a directory given as input next to intact files
+	forceDir := t.Choose(12) == 11
+	if forceDir {
+		codec, viaStdin = 1, false
+	}
 	viaPipe := false
 	if viaStdin {
 		// the C reader of standard input only knows gzip (bzip2, xz and zstd are not readable
@@ -314,7 +320,7 @@ func c17Command(rc *RunCtx, t *simrt.Tape) {
 		codec = []int{1, 5}[t.Choose(2)]
 	}
 	// the same records as a CSV sequence file (what obicsv writes is an input format too)
-	asCSV := !viaStdin && format == fmFasta && t.Choose(4) == 3
+	asCSV := !viaStdin && !forceDir && format == fmFasta && t.Choose(4) == 3
 	hugeCSV := asCSV && t.Choose(3) == 2
 	if hugeCSV {
 		// more than 1 MiB of text: the format guesser only sees the first MiB, what follows is
@@ -354,6 +360,13 @@ func c17Command(rc *RunCtx, t *simrt.Tape) {
 	}
 	bit := t.Choose(8)
 	data := append([]byte(nil), image...)
+	if forceDir {
+		if t.Choose(2) == 1 {
+			kind, k = fkFlip, t.Choose(2)
+		} else {
+			kind, k = fkTruncate, 1
+		}
+	}
 	if viaPipe && t.Choose(4) == 3 {
 		// a damaged magic number: for zlib the stream is then not gzip at all and is handed
 		// over as it is (binary text without any record)
@@ -420,7 +433,11 @@ func c17Command(rc *RunCtx, t *simrt.Tape) {
 		}
 		// the damaged file alone, or among intact files (before, after, both; --no-order):
 		// one unreadable input must fail the command however many others are fine
-		switch t.Choose(5) {
+		among := t.Choose(5)
+		if forceDir {
+			among = 2
+		}
+		switch among {
 		case 2, 3, 4:
 			mk := func(name string, base int) string {
 				recs := genRecs(t, 1+t.Choose(6), base, format == fmFastq, 10, 60)
@@ -444,8 +461,19 @@ func c17Command(rc *RunCtx, t *simrt.Tape) {
 			if t.Choose(3) == 2 {
 				args = append(args, "--no-order")
 			}
-			args = append(args, files...)
-			transport += fmt.Sprintf("-among-%d-files", len(files))
+			if (codec == 1 || codec == 5) && !asCSV && (forceDir || t.Choose(3) == 2) {
+				// the files are given as a directory: whatever is in it and bears the
+				// extension of a sequence file is an input, damaged or not
+				os.MkdirAll(filepath.Join(dir, "data"), 0755)
+				for _, f := range files {
+					os.Rename(f, filepath.Join(dir, "data", filepath.Base(f)))
+				}
+				args = append(args, "data")
+				transport += fmt.Sprintf("-among-%d-files-as-directory", len(files))
+			} else {
+				args = append(args, files...)
+				transport += fmt.Sprintf("-among-%d-files", len(files))
+			}
 		default:
 			args = append(args, in)
 		}
